@@ -34,7 +34,7 @@ Proof.
   intros q s z g Hq H. unfold asm_int in H. rewrite Hq in H. cbn [andb] in H.
   destruct (deref1 s) as [|k| | | | | | | | |] eqn:Es; try discriminate.
   exists k. split; [reflexivity|].
-  destruct (match s with SInt k' => ik_unsigned k' | _ => false end).
+  destruct (if q_ptr_uint q then ik_unsigned k else match s with SInt k' => ik_unsigned k' | _ => false end).
   - destruct (z <? 0)%Z; [discriminate|].
     destruct (ik_in k z) eqn:Hin; simpl in H; [|discriminate].
     rewrite (ik_narrow_in k z Hin) in H. inversion H. auto.
